@@ -316,6 +316,15 @@ func (m *fullMon) c08PodCreate(call *APICall, pod *corev1.Pod) {
 			m.v("C09/duplicate-task", "second Pod created for Job %s index %s retry %d (first: %s, still exists: %v)", cur.Name, hash, retry, pp.name, stillThere)
 			return
 		}
+		// ... unless it vanished because this controller deleted it itself: then the
+		// Job has forgotten a task it had adopted and acted on.
+		if tr := m.w.Kubelet.ByUID[pp.uid]; tr != nil {
+			byCtrl := func(a string) bool { return strings.Contains(a, "/job/") || strings.HasPrefix(a, "anon:") }
+			if byCtrl(tr.DelBy) || (tr.DelBy == "" && byCtrl(tr.GoneBy)) {
+				m.v("C09/duplicate-task", "second Pod created for Job %s index %s retry %d: the first one (%s) was deleted by the job controller itself before it was ever recorded in status.tasks, and has been forgotten", cur.Name, hash, retry, pp.name)
+				return
+			}
+		}
 		m.stat("mon.c09.recreated_vanished_unrecorded")
 	}
 	for r := 0; r < retry; r++ {
@@ -819,6 +828,17 @@ func (m *fullMon) c11Pair(call *APICall, verb string, oj, nj *execution.Job) {
 			p := po.(*corev1.Pod)
 			if ref := metav1.GetControllerOf(p); ref == nil || ref.UID != nj.UID {
 				continue
+			}
+			// the record describes the object the sync read; if that was an earlier
+			// object of the same name (deleted and re-created since), it says nothing
+			// about the current one
+			if call != nil && call.ReadRV != nil {
+				if rv := call.ReadRV["pods/"+nj.Namespace+"/"+nr.Name]; rv != "" {
+					if pv := m.t.podByRV[rv]; pv != nil && pv.UID != p.UID {
+						m.stat("mon.c09.record_of_earlier_incarnation")
+						continue
+					}
+				}
 			}
 			if !podTerminal(p) && (newlyFinished || nr.Status.State == execution.TaskDeletedFinalStateUnknown) {
 				m.v("C09/false-lost", "%s: task %s recorded as %s with finish time %v while its Pod exists and is not finished (phase %s, deletionTimestamp %v)", fmtJob(nj), nr.Name, nr.Status.State, nr.FinishTimestamp, p.Status.Phase, p.DeletionTimestamp)
